@@ -120,6 +120,7 @@ func exec(c vh.Case, o *vh.Out) {
 	cbStop := -1
 	cbCalls := 0
 	cbLive := false
+	var prioAll []cid.Cid // all keys of the streams of the installed prioritized key provider
 	defer func() {
 		if sys != nil {
 			sys.Close()
@@ -191,8 +192,8 @@ func exec(c vh.Case, o *vh.Out) {
 				panic(err)
 			}
 			o.Emit("ok")
-		case "reprov":
-			if sys == nil {
+		case "reprov", "reprovk":
+			if sys == nil || (f[0] == "reprovk" && prioAll == nil) {
 				o.Emit("bad-op")
 				break
 			}
@@ -213,7 +214,12 @@ func exec(c vh.Case, o *vh.Out) {
 			for _, t := range f[3:] {
 				ks = append(ks, tab.Cid(t))
 			}
-			sys.SetKeyProvider(chanOf(ks))
+			if f[0] == "reprovk" {
+				ks = prioAll // the key provider installed by setprio stays; its keys, for the monitors
+				o.Kind("reprovide-pass-with-prioritized-provider")
+			} else {
+				sys.SetKeyProvider(chanOf(ks))
+			}
 			cbAtStart := cbLive
 			ctx, cancel := context.WithCancel(context.Background())
 			done := make(chan error, 1)
@@ -385,7 +391,7 @@ func exec(c vh.Case, o *vh.Out) {
 			}
 			o.Kind(f[0])
 			o.Emit("out=[%s]", strings.Join(out, ","))
-		case "prio":
+		case "prio", "setprio":
 			var streams []provider.KeyChanFunc
 			var in [][]cid.Cid
 			cur := []cid.Cid{}
@@ -411,68 +417,88 @@ func exec(c vh.Case, o *vh.Out) {
 				}
 			}
 			flushStream()
-			ch, err := provider.NewPrioritizedProvider(streams...)(context.Background())
-			if err != nil {
-				o.Emit("err")
-				break
+			// ONE KeyChanFunc, invoked several times (as successive reprovide passes do): every invocation must behave
+			// like the first one (deduplication only within an invocation)
+			kf := provider.NewPrioritizedProvider(streams...)
+			if f[0] == "setprio" {
+				if sys == nil {
+					o.Emit("bad-op")
+					break
+				}
+				sys.SetKeyProvider(kf)
+				prioAll = nil
+				for _, st := range in {
+					prioAll = append(prioAll, st...)
+				}
+				o.Kind("prioritized-keyprovider")
 			}
+			var outs []string
 			var out []string
-			seen := map[cid.Cid]bool{}
-			for k := range ch {
-				out = append(out, tab.Tok(k))
-				seen[k] = true
-			}
-			// monitor: every key of every stream is emitted ...
-			for _, st := range in {
-				for _, k := range st {
-					if !seen[k] {
-						o.Fail("prio-key-lost", "key %s of a stream was not emitted", tab.Tok(k))
+			for pass := 0; pass < 2; pass++ {
+				ch, err := kf(context.Background())
+				if err != nil {
+					outs = append(outs, "err")
+					continue
+				}
+				out = nil
+				seen := map[cid.Cid]bool{}
+				for k := range ch {
+					out = append(out, tab.Tok(k))
+					seen[k] = true
+				}
+				// monitor: every key of every stream is emitted ...
+				for _, st := range in {
+					for _, k := range st {
+						if !seen[k] {
+							o.Fail("prio-key-lost", "key %s of a stream was not emitted", tab.Tok(k))
+						}
 					}
 				}
-			}
-			// ... a key is only emitted for the FIRST stream that contains it (never again for a later one): it is
-			// emitted at most as often as it occurs in that stream, and first emissions follow stream order
-			firstMult := map[cid.Cid]int{}
-			done := map[cid.Cid]bool{}
-			var order []string
-			for _, st := range in {
-				here := map[cid.Cid]bool{}
-				for _, k := range st {
-					if done[k] {
-						continue
+				// ... a key is only emitted for the FIRST stream that contains it (never again for a later one): it is
+				// emitted at most as often as it occurs in that stream, and first emissions follow stream order
+				firstMult := map[cid.Cid]int{}
+				done := map[cid.Cid]bool{}
+				var order []string
+				for _, st := range in {
+					here := map[cid.Cid]bool{}
+					for _, k := range st {
+						if done[k] {
+							continue
+						}
+						if !here[k] {
+							order = append(order, tab.Tok(k))
+						}
+						here[k] = true
+						firstMult[k]++
 					}
-					if !here[k] {
-						order = append(order, tab.Tok(k))
+					for k := range here {
+						done[k] = true
 					}
-					here[k] = true
-					firstMult[k]++
 				}
-				for k := range here {
-					done[k] = true
+				count := map[cid.Cid]int{}
+				var firsts []string
+				for _, t := range out {
+					k := tab.Cid(t)
+					if count[k] == 0 {
+						firsts = append(firsts, t)
+					}
+					count[k]++
 				}
-			}
-			count := map[cid.Cid]int{}
-			var firsts []string
-			for _, t := range out {
-				k := tab.Cid(t)
-				if count[k] == 0 {
-					firsts = append(firsts, t)
+				for k, n := range count {
+					if n > firstMult[k] {
+						o.Fail("prio-repeat", "key %s emitted %d times; it occurs %d times in the first stream that has it", tab.Tok(k), n, firstMult[k])
+					}
 				}
-				count[k]++
-			}
-			for k, n := range count {
-				if n > firstMult[k] {
-					o.Fail("prio-repeat", "key %s emitted %d times; it occurs %d times in the first stream that has it", tab.Tok(k), n, firstMult[k])
+				if strings.Join(firsts, ",") != strings.Join(order, ",") {
+					o.Fail("prio-order", "first emissions %v, stream order %v", firsts, order)
 				}
-			}
-			if strings.Join(firsts, ",") != strings.Join(order, ",") {
-				o.Fail("prio-order", "first emissions %v, stream order %v", firsts, order)
+				outs = append(outs, "["+strings.Join(out, ",")+"]")
 			}
 			o.Kind(fmt.Sprintf("prio%d", len(in)))
 			if len(in) >= 2 && len(out) > 0 {
 				o.Nontrivial()
 			}
-			o.Emit("out=[%s]", strings.Join(out, ","))
+			o.Emit("out=%s again=%s", outs[0], outs[1])
 		default:
 			o.Emit("bad-op")
 		}
@@ -598,6 +624,25 @@ func gen(r *vh.Rand, tier string, n int, emit func(vh.Case)) {
 				c.Ops = append(c.Ops, strings.TrimSpace("reprov-cancel "+strings.Join(ks[:min(len(ks), 5)], " ")))
 			case 2, 3:
 				c.Ops = append(c.Ops, "stat")
+			}
+		}
+		if r.Chance(1, 3) { // several passes over ONE prioritized key provider
+			pool := make([]string, r.Range(2, 10))
+			for k := range pool {
+				pool[k] = genCid(r)
+			}
+			var toks []string
+			for s, ns := 0, r.Range(2, 3); s < ns; s++ {
+				if s > 0 {
+					toks = append(toks, "/")
+				}
+				for k, m := 0, r.Range(1, 8); k < m; k++ {
+					toks = append(toks, vh.Pick(r, pool))
+				}
+			}
+			c.Ops = append(c.Ops, "setprio "+strings.Join(toks, " "))
+			for j, m := 0, r.Range(2, 3); j < m; j++ {
+				c.Ops = append(c.Ops, "reprovk - -")
 			}
 		}
 		c.Ops = append(c.Ops, "stat")
